@@ -80,7 +80,7 @@ def run_single(cfg: dict, ctx, letters=None, conn_letters=None, fp=True, prior=(
     if cfg.get('udp_connect'):
         peer.udp_conn_letters = ['ok', 'netunreach']
     loop = KLoop(peer, ctx=ctx)
-    p = make_protocol(cfg['transport'], cfg['T'], cfg['R'], cfg['ka'])
+    p = make_protocol(cfg['transport'], cfg['T'], cfg['R'], cfg['ka'], host=cfg.get('host'))
     if cfg.get('tx_start') is not None and not hasattr(gp, '_modbus_tcp_tx'):
         # the counter is not reachable as a module attribute: walk up to the start state by building frames
         c0 = p.read_command(0, 1)
